@@ -340,7 +340,10 @@ Within(g, o) ==
                                  /\ o.xs # <<>> /\ NoDup(o.xs) /\ ToSet(o.xs) \subseteq g.T
     \* (moving a registered issuer onto existing topics adds nothing to the registry: no limit can be in the way,
     \* however long a topic's issuer list gets - it is bounded by the number of issuers)
-    [] o.op = "update_issuer" -> o.a \in g.I /\ o.xs # <<>> /\ NoDup(o.xs) /\ ToSet(o.xs) \subseteq g.T
+    \* (judged only when the edit puts the issuer onto at least one more topic - the case a limit could be about; an
+    \* implementation that refuses an edit which changes nothing is not flagged)
+    [] o.op = "update_issuer" -> /\ o.a \in g.I /\ o.xs # <<>> /\ NoDup(o.xs) /\ ToSet(o.xs) \subseteq g.T
+                                 /\ ToSet(o.xs) \ TopicsOf(g, o.a) # {}
     [] o.op = "bind"          -> o.a \notin g.S /\ Card(g.S) < g.lim.max
     [] o.op = "bind_batch"    -> /\ o.xs # <<>> /\ NoDup(o.xs) /\ ToSet(o.xs) \cap g.S = {}
                                  /\ Len(o.xs) <= g.lim.batch /\ Card(g.S) + Len(o.xs) <= g.lim.max
